@@ -59,7 +59,11 @@ def main():
             comb = names[n]
             tuples = list(zip(*[before[c].tolist() for c in comb]))
             col = out[n].tolist()
-            if len(col) != len(before) or partition(col) != partition(tuples):
+            if len(col) != len(before):
+                h.fail('combine_features.ensures.one_value_per_row', dict(wit, column=n), f'{len(col)} values for {len(before)} rows',
+                       obligations=['core_ranking.compute_combined_features.combine_features/ensures.one_value_per_row'])
+                continue
+            if partition(col) != partition(tuples):
                 bad = [(i, j) for i in range(len(col)) for j in range(i) if (col[i] == col[j]) != (tuples[i] == tuples[j])][:1]
                 h.fail('combine_features.ensures.faithful', dict(wit, column=n, rows_ij=bad),
                        f'rows {bad}: constituents {[tuples[i] for i in bad[0]] if bad else None}, interaction values {[col[i] for i in bad[0]] if bad else None}',
@@ -106,6 +110,11 @@ def main():
                 continue
             for cap in (1, 3, 1000):
                 check(df, order, cap, tag='random')
+            if case % 4 == 0:
+                # rows keep their identity whatever the frame's row labels are (a shuffled / filtered frame)
+                dfi = df.copy()
+                dfi.index = rng.permutation(len(df)) * 2 + 1
+                check(dfi, order, 1000, tag='row-labels')
     # ---- scale: 2*10^5 distinct digit-id pairs must give 2*10^5 distinct interaction values (a 32-bit digest would collide)
     big_n = 200000
     ids = rng.permutation(big_n)
